@@ -1,41 +1,55 @@
 ------------------------------ MODULE JobBind ------------------------------
 (* C17, part 1: a Job declared on a driver class is a descriptor.  Preparing  *)
-(* a JobInput through driver instance d must reflect d's own executable,      *)
+(* a JobInput through driver instance d must reflect d's CURRENT executable,  *)
 (* processor count and environment, whatever other instances exist or were    *)
-(* used before.  Deviation "SharedDescriptor" is the pinned tree: the first   *)
-(* access writes the instance's settings into the one shared Job object       *)
-(* (`x = x or ...`), environments are merged into it.                          *)
+(* used before, and whatever d itself was configured with earlier.            *)
+(* Deviation "SharedDescriptor" is the pinned tree (the first access writes    *)
+(* the instance's settings into the one shared Job object, environments are    *)
+(* merged into it); "FrozenAtFirstUse" binds once per instance and never       *)
+(* looks at the instance again.                                                *)
 EXTENDS Naturals, Sequences, FiniteSets, TLC
-CONSTANTS Drv, Exe, NProc, Env,   \* [Drv -> ...] settings of each instance
+CONSTANTS Drv, Exe, NProc, Env,   \* [Drv -> [0..1 -> ...]] settings of each instance: original (0) and after re-configuration (1)
           MaxOps, Deviations
 VARIABLES made,    \* set of created instances
-          sticky,  \* settings remembered by the shared descriptor (only under the deviation)
+          conf,    \* [Drv -> 0..1] which settings the instance currently has
+          sticky,  \* settings remembered by the shared descriptor (only under SharedDescriptor)
+          frozen,  \* [Drv -> settings bound at the first use] (only under FrozenAtFirstUse)
           nops, last
-vars == <<made, sticky, nops, last>>
-sv == <<made, sticky, nops>>
+vars == <<made, conf, sticky, frozen, nops, last>>
+sv == <<made, conf, sticky, frozen, nops>>
 NoneS == [exe |-> "none", np |-> 0, env |-> {}]
 
-Init == made = {} /\ sticky = NoneS /\ nops = 0 /\ last = [act |-> "init"]
+Init == /\ made = {} /\ conf = [d \in Drv |-> 0] /\ sticky = NoneS /\ frozen = [d \in Drv |-> NoneS]
+        /\ nops = 0 /\ last = [act |-> "init"]
+
+Cur(d) == [exe |-> Exe[d][conf[d]], np |-> NProc[d][conf[d]], env |-> Env[d][conf[d]]]
 
 Create(d) == /\ d \notin made /\ nops < MaxOps
-             /\ made' = made \cup {d} /\ nops' = nops + 1 /\ UNCHANGED sticky
+             /\ made' = made \cup {d} /\ nops' = nops + 1 /\ UNCHANGED <<conf, sticky, frozen>>
              /\ last' = [act |-> "create", d |-> d]
 
+(* driver.executable / nprocs / envars are assigned new values on the live instance *)
+Reconfigure(d) == /\ d \in made /\ conf[d] = 0 /\ nops < MaxOps
+                  /\ conf' = [conf EXCEPT ![d] = 1] /\ nops' = nops + 1 /\ UNCHANGED <<made, sticky, frozen>>
+                  /\ last' = [act |-> "reconfigure", d |-> d]
+
 Bound(d) == IF "SharedDescriptor" \in Deviations
-              THEN [exe |-> IF sticky.exe # "none" THEN sticky.exe ELSE Exe[d],
-                    np  |-> IF sticky.np # 0 THEN sticky.np ELSE NProc[d],
-                    env |-> Env[d] \cup sticky.env]
-              ELSE [exe |-> Exe[d], np |-> NProc[d], env |-> Env[d]]
+              THEN [exe |-> IF sticky.exe # "none" THEN sticky.exe ELSE Cur(d).exe,
+                    np  |-> IF sticky.np # 0 THEN sticky.np ELSE Cur(d).np,
+                    env |-> Cur(d).env \cup sticky.env]
+              ELSE IF "FrozenAtFirstUse" \in Deviations /\ frozen[d] # NoneS THEN frozen[d]
+              ELSE Cur(d)
 
 (* d.job.prepare(args): the JobInput's command line and environment *)
 Use(d) == /\ d \in made /\ nops < MaxOps
-          /\ nops' = nops + 1 /\ UNCHANGED made
+          /\ nops' = nops + 1 /\ UNCHANGED <<made, conf>>
           /\ sticky' = IF "SharedDescriptor" \in Deviations THEN Bound(d) ELSE sticky
+          /\ frozen' = IF "FrozenAtFirstUse" \in Deviations /\ frozen[d] = NoneS THEN [frozen EXCEPT ![d] = Cur(d)] ELSE frozen
           /\ last' = [act |-> "use", d |-> d, exe |-> Bound(d).exe, np |-> Bound(d).np, env |-> Bound(d).env]
 
-Next == \E d \in Drv : Create(d) \/ Use(d)
+Next == \E d \in Drv : Create(d) \/ Use(d) \/ Reconfigure(d)
 Spec == Init /\ [][Next]_vars
-Obs == [made |-> made]
+Obs == [made |-> made, conf |-> conf]
 NoCrossTalk == [][last'.act = "use" =>
-                    (last'.exe = Exe[last'.d] /\ last'.np = NProc[last'.d] /\ last'.env = Env[last'.d])]_vars
+                    (last'.exe = Cur(last'.d).exe /\ last'.np = Cur(last'.d).np /\ last'.env = Cur(last'.d).env)]_vars
 =============================================================================
